@@ -12,6 +12,7 @@ From Xdis Require Import Base.Prelude Base.Result Base.LE Base.Utf8.
 Inductive pv :=
 | PNull | PNone | PTrue | PFalse | PEllipsis | PStopIter
 | PInt (z : Z)
+| PLong (z : Z)                      (* Python 2 long (marshal 'l' in 1.x/2.x bytecode); 3.x has one int type *)
 | PFloat (bits : Z)                  (* IEEE-754 double, little-endian bit pattern *)
 | PFloatText (s : list Z)            (* text float: the decimal string as written *)
 | PComplex (re im : pv)
@@ -165,7 +166,8 @@ Definition r_leaf (c : cfg) (save : bool) (t : Z) (st : mstate) (l : list Z) : o
     do2 (n, l1) <- read_s32 c l;
     do2 (ds, l2) <- read_digits c len (Z.abs n) [] l1;
     let d := digits_value ds 0 in
-    let v := PInt (if n <? 0 then - d else d) in
+    let z := if n <? 0 then - d else d in
+    let v := if vge c [3; 0] then PInt z else PLong z in
     Ok (v, r_ref save v st l2))
   else if t =? 103 then Some (                                           (* 'g' *)
     do2 (b, l1) <- read_u64 c l; Ok (PFloat b, r_ref save (PFloat b) st l1))
